@@ -325,6 +325,11 @@ for _mask in range(1 << 5):
     for _extra in ((), ('byte',), ('terminal', 'sleep')):
         LIBRARY_SUBSETS.append(('const string gs = "wxyz"; const byte[] gt2 = [104, 105];',
                                 'int n = 5; ' + ' '.join(_USES[k] for k in list(_names) + list(_extra))))
+for _g in ('int g1[-1];', 'byte g1[-1];', 'bool g1[-1];', 'bool g1[-8];', 'string g1[-2];', 'const int H = 8; const int P = 4; byte g1[P - H];',
+           'const int H = 8; int g1[H - 9];', 'int g1[0];', 'int g1[65536];', 'int g1[65537];', 'int g1[32768];', 'bool g1[65536 * 8];', 'int g1[-65535];',
+           'int g1[-65536];', 'int[] g1 = [];', 'const int N = -3; int g1[N * N - 10];'):
+    ILL_FORMED.append((_g, 'write(g1.length);'))
+    ILL_FORMED.append((_g, 'if (g1.length > 0) { g1[0] = g1[0]; } write(g1.length);'))
 for _stmt in ('return write(1);', 'return writeln("bye");', 'return gone();', 'return sleep(0);', 'if (false) { return debug(); }', 'return all_is_win();',
               'try { return !is_defeat(); } undo { }', 'int q = gone();', 'write(gone());', 'gone() ?? gone();', 'int[] z = [gone()];'):
     ILL_FORMED.append(('empty gone() { write("g"); }', _stmt))
